@@ -1,136 +1,233 @@
 package rules
 
 import (
-	"fmt"
 	"go/ast"
 	"go/token"
 	"go/types"
-	"sort"
-	"strings"
+	"math/big"
+
+	"golang.org/x/tools/go/cfg"
 
 	"lachk/core"
 )
 
-var _ = fmt.Sprint
-var _ ast.Node
-var _ token.Pos
-var _ types.Object
-var _ = sort.Strings
-var _ = strings.TrimSpace
+const (
+	c01RootsTable = "abft.Store.epochTable.Roots"
+	c01RootsCache = "abft.Store.cache.FrameRoots"
+)
+
+// c01RecvField: canonical name of the field on which the method is called ("" if not a field).
+func c01RecvField(cs *core.CallSite) string {
+	r := cs.Recv()
+	if r == nil {
+		return ""
+	}
+	_, pth := fieldPath(cs.F, r)
+	if len(pth) == 0 {
+		return ""
+	}
+	return pth[len(pth)-1]
+}
+
+func c01IsRootsPut(cs *core.CallSite) bool {
+	return cs.Name == kvPut && c01RecvField(cs) == c01RootsTable
+}
+
+// a per-slot look at the cached list of the slot's frame: the lookup that precedes the append, or an
+// invalidation
+func c01IsCacheTouch(cs *core.CallSite) bool {
+	return (methodNamed(cs.Name, "Get") || methodNamed(cs.Name, "Remove")) && c01RecvField(cs) == c01RootsCache
+}
+
+func c01IsCacheAdd(cs *core.CallSite) bool {
+	return methodNamed(cs.Name, "Add") && c01RecvField(cs) == c01RootsCache
+}
+
+// c01SlotNamer names the atoms of the slot arithmetic by role, through objects: the self-parent frame
+// parameter, the loop variable and root.Frame() (also when kept in a single-definition local).
+func c01SlotNamer(f *core.FuncInfo, cl *c01Counted, spf, root *types.Var) core.AtomNamer {
+	return func(e ast.Expr) string {
+		e = resolveLocal(f, e)
+		if v := canonVar(f, varOf(f, e)); v != nil {
+			if v == spf {
+				return "spf"
+			}
+			if cl != nil && v == cl.Var {
+				return "f"
+			}
+		}
+		if root != nil && c01MethodOn(f, e, "Frame") == root {
+			return "rootFrame"
+		}
+		return ""
+	}
+}
+
+// c01SlotRange decides that the loop cl, whose iteration with variable value v stands for the frame
+// slot frameExpr(v) = v + k, enumerates exactly the slots selfParentFrame+1 .. root.Frame().
+func c01SlotRange(c *core.Ctx, f *core.FuncInfo, cl *c01Counted, spf, root *types.Var, frameExpr ast.Expr, what string) {
+	namer := c01SlotNamer(f, cl, spf, root)
+	fl := core.Linearize(f.Info(), resolveLocal(f, frameExpr), namer)
+	okF := len(fl.Coef) == 1 && coefIs(fl, "f", 1) && fl.C.IsInt64()
+	okInit, okCond := false, false
+	if okF {
+		k := fl.C.Int64()
+		il := core.Linearize(f.Info(), resolveLocal(f, cl.Init), namer)
+		okInit = len(il.Coef) == 1 && coefIs(il, "spf", 1) && il.C.IsInt64() && il.C.Int64() == 1-k
+		lc, isCmp := core.NormLinCmp(f.Info(), core.Fact{Expr: cl.Loop.Cond, Truth: true}, namer)
+		want := core.ParseLinCmp("f - rootFrame <= 0")
+		want.Form.C = big.NewInt(k)
+		okCond = isCmp && lc.Equal(want)
+	}
+	c.Check(okF && okInit && okCond, what+" enumerates frames selfParentFrame+1 .. root.Frame()", "T16b SiblingAgreement (loop bounds)", cl.Loop.Pos(),
+		"the counted loop's slots run from selfParentFrame+1 to root.Frame() inclusive (bounds compared up to arithmetic rewriting)",
+		what+" does not enumerate exactly the frames above the self-parent's frame up to the root's frame: a root that moves up several frames votes in / is registered for other slots than its own")
+}
+
+// c01SlotRecord: the (ID, validator, frame) of the RootAndSlot value x of eff.G in AddRoot's terms.
+type c01Record struct {
+	id, validator *types.Var // the caller's variable whose .ID() / .Creator() is stored
+	frame         ast.Expr   // caller-side frame expression
+	ok            bool
+}
+
+func c01RecordOf(eff c01Effect, x ast.Expr) c01Record {
+	if eff.G != eff.Caller {
+		// the helper was handed the record (or a struct holding it): judge the caller's value
+		if arg, ok := eff.callerExpr(x); ok && arg != nil && c01StructFields(eff.Caller, arg) != nil {
+			return c01RecordOf(eff.direct(), arg)
+		}
+	}
+	fields := c01StructFields(eff.G, x)
+	if fields == nil {
+		return c01Record{}
+	}
+	r := c01Record{id: eff.callerRecv(fields["ID"], "ID"), validator: eff.callerRecv(fields["Slot.Validator"], "Creator")}
+	r.frame, r.ok = eff.callerExpr(fields["Slot.Frame"])
+	r.ok = r.ok && r.id != nil && r.validator != nil && r.frame != nil
+	return r
+}
+
+// c01Registration is the shape of Store.AddRoot that C01.slots and C02.roots decide.
+type c01Registration struct {
+	ar        *core.FuncInfo
+	spf, root *types.Var
+	loop      *c01Counted
+	loopWhy   string
+	loopPos   token.Pos
+	puts      []c01Effect // writes of the roots table (direct or one helper down)
+	putMust   []core.Point
+	touches   []c01Effect // lookups / invalidations of the cached root list
+	touchMust []core.Point
+}
+
+func c01AnalyseRegistration(c *core.Ctx) *c01Registration {
+	ar := c.Fn("abft.Store.AddRoot")
+	r := &c01Registration{ar: ar, spf: ar.Param(0), root: ar.Param(1), loopPos: ar.Pos()}
+	r.puts = c01Effects(ar, c01IsRootsPut)
+	r.touches = c01Effects(ar, c01IsCacheTouch)
+	r.putMust = ar.SitesMust(c01IsRootsPut, 2)
+	r.touchMust = ar.SitesMust(c01IsCacheTouch, 2)
+	// the slot loop: the loop around the registration effects; if they were moved out of every loop,
+	// the first loop of AddRoot (so that the per-slot obligation can name it)
+	var loop ast.Stmt
+	for _, e := range append(append([]c01Effect(nil), r.puts...), r.touches...) {
+		if l := enclosingLoop(ar, e.At.Pos()); l != nil && loop == nil {
+			loop = l
+		}
+	}
+	if loop == nil {
+		ar.InspectOwn(func(n ast.Node) bool {
+			switch n.(type) {
+			case *ast.ForStmt, *ast.RangeStmt:
+				if loop == nil {
+					loop = n.(ast.Stmt)
+				}
+			}
+			return true
+		})
+	}
+	if loop == nil {
+		r.loopWhy = "AddRoot has no loop over the root's frames"
+		return r
+	}
+	r.loopPos = loop.Pos()
+	r.loop, r.loopWhy = c01CountedLoop(ar, loop)
+	return r
+}
 
 // c01Slots: a root that moves up several frames occupies one slot per frame. Registration (AddRoot)
 // and voting (handleElection) must enumerate the same slots — frames selfParentFrame+1 .. root.Frame()
 // — and each vote must be cast for the slot of its own iteration. If the live vote uses another
 // frame than the stored slot, an instance that replays the stored roots (after a decision or a
 // restart) votes differently from one that saw the root live: the outcome depends on delivery order.
+// Registration has two sinks that GetFrameRoots reads — the roots table and, when present, the cached
+// list of the frame — and each slot must reach both, otherwise instances whose cache state differs
+// (size, eviction, restart) replay different root sets.
 func c01Slots(c *core.Ctx) {
 	c.Clause("C01.slots", func() {
-		type site struct {
-			fn, callee string
-		}
-		check := func(f *core.FuncInfo, spfParam, root *types.Var, what string) (*ast.ForStmt, *types.Var) {
-			var loop *ast.ForStmt
-			f.InspectOwn(func(n ast.Node) bool {
-				if fs, ok := n.(*ast.ForStmt); ok && loop == nil {
-					loop = fs
-				}
-				return true
-			})
-			c.Need(loop != nil && loop.Init != nil && loop.Cond != nil && loop.Post != nil, short(f.Name)+" iterates the root's frames with a counted loop")
-			as, _ := loop.Init.(*ast.AssignStmt)
-			c.Need(as != nil && len(as.Lhs) == 1 && len(as.Rhs) == 1, "loop init")
-			fv := varOf(f, as.Lhs[0])
-			namer := func(e ast.Expr) string {
-				if varOf(f, e) == spfParam {
-					return "spf"
-				}
-				if varOf(f, e) == fv {
-					return "f"
-				}
-				if call, ok := ast.Unparen(e).(*ast.CallExpr); ok && methodNamed(calleeName(f, call), "Frame") {
-					if sel, k := call.Fun.(*ast.SelectorExpr); k && varOf(f, sel.X) == root {
-						return "rootFrame"
-					}
-				}
-				return ""
-			}
-			l := core.Linearize(f.Info(), as.Rhs[0], namer)
-			okInit := len(l.Coef) == 1 && coefIs(l, "spf", 1) && l.C.Int64() == 1
-			lc, k := core.NormLinCmp(f.Info(), core.Fact{Expr: loop.Cond, Truth: true}, namer)
-			okCond := k && lc.Equal(core.ParseLinCmp("f - rootFrame <= 0"))
-			inc, isInc := loop.Post.(*ast.IncDecStmt)
-			okPost := isInc && inc.Tok == token.INC && varOf(f, inc.X) == fv
-			c.Check(okInit && okCond && okPost, what+" enumerates frames selfParentFrame+1 .. root.Frame()", "T16b SiblingAgreement (loop bounds)", loop.Pos(), "for f := selfParentFrame+1; f <= root.Frame(); f++", what+" does not enumerate exactly the frames above the self-parent's frame up to the root's frame")
-			return loop, fv
-		}
 		// voting
 		he := c.Fn("abft.Orderer.handleElection")
-		loop, fv := check(he, he.Param(0), he.Param(1), "voting")
-		root := he.Param(1)
-		for _, cs := range he.CallsTo("abft/election.Election.ProcessRoot") {
-			okIn := enclosingLoop(he, cs.Pos()) == ast.Stmt(loop)
-			cl, _ := ast.Unparen(cs.Call.Args[0]).(*ast.CompositeLit)
-			okID, okFrame, okVal := false, false, false
-			if cl != nil {
-				var visit func(cl *ast.CompositeLit)
-				visit = func(cl *ast.CompositeLit) {
-					for _, el := range cl.Elts {
-						kv, ok := el.(*ast.KeyValueExpr)
-						if !ok {
-							continue
-						}
-						key, _ := kv.Key.(*ast.Ident)
-						if key == nil {
-							continue
-						}
-						isRootCall := func(e ast.Expr, m string) bool {
-							call, ok := ast.Unparen(e).(*ast.CallExpr)
-							if !ok || !methodNamed(calleeName(he, call), m) {
-								return false
-							}
-							sel, k := call.Fun.(*ast.SelectorExpr)
-							return k && varOf(he, sel.X) == root
-						}
-						switch key.Name {
-						case "ID":
-							okID = isRootCall(kv.Value, "ID")
-						case "Frame":
-							okFrame = varOf(he, kv.Value) == fv
-						case "Validator":
-							okVal = isRootCall(kv.Value, "Creator")
-						case "Slot":
-							if inner, ok := ast.Unparen(kv.Value).(*ast.CompositeLit); ok {
-								visit(inner)
-							}
-						}
-					}
-				}
-				visit(cl)
+		spf, root := he.Param(0), he.Param(1)
+		votes := he.CallsTo("abft/election.Election.ProcessRoot")
+		for _, cs := range votes {
+			c.Need(len(cs.Call.Args) == 1, "ProcessRoot takes the root and slot")
+			cl, why := c01CountedLoop(he, enclosingLoop(he, cs.Pos()))
+			if cl == nil {
+				c.Undecided("voting enumerates frames selfParentFrame+1 .. root.Frame()", "T16b SiblingAgreement (loop bounds)", cs.Pos(), "the live vote is not cast inside a counted loop over the root's frames: "+why)
+				continue
 			}
-			c.Check(okIn && okID && okFrame && okVal, "each vote is cast for the slot of its own iteration", "T16b SiblingAgreement (provenance)", cs.Pos(),
-				"ProcessRoot(RootAndSlot{ID: root.ID(), Slot{Frame: f, Validator: root.Creator()}}) with f the loop variable",
+			fields := c01StructFields(he, cs.Call.Args[0])
+			okID := c01MethodOn(he, fields["ID"], "ID") == root && root != nil
+			okVal := c01MethodOn(he, fields["Slot.Validator"], "Creator") == root && root != nil
+			frameExpr := fields["Slot.Frame"]
+			okFrame := false
+			if frameExpr != nil {
+				fl := core.Linearize(he.Info(), resolveLocal(he, frameExpr), c01SlotNamer(he, cl, spf, root))
+				okFrame = len(fl.Coef) == 1 && coefIs(fl, "f", 1)
+			}
+			c.Check(okID && okVal && okFrame, "each vote is cast for the slot of its own iteration", "T16b SiblingAgreement (provenance)", cs.Pos(),
+				"ProcessRoot gets {ID: root.ID(), Slot{Frame: the iteration's frame, Validator: root.Creator()}} (locals and field order looked through)",
 				"the live vote is not cast for the slot (frame f, creator) that is registered for the root: replayed and live votes differ, so instances that received events in different orders decide differently or fail")
+			if okFrame {
+				c01SlotRange(c, he, cl, spf, root, frameExpr, "voting")
+			}
 		}
-		c.ExpectAtLeast("live ProcessRoot sites", len(he.CallsTo("abft/election.Election.ProcessRoot")), 1)
+		c.ExpectAtLeast("live ProcessRoot sites", len(votes), 1)
+
 		// registration
-		ar := c.Fn("abft.Store.AddRoot")
-		rloop, rfv := check(ar, ar.Param(0), ar.Param(1), "registration")
-		for _, cs := range ar.CallsTo("abft.Store.addRoot") {
-			ok := enclosingLoop(ar, cs.Pos()) == ast.Stmt(rloop) && varOf(ar, cs.Call.Args[0]) == ar.Param(1) && varOf(ar, cs.Call.Args[1]) == rfv
-			c.Check(ok, "each frame of the root is registered", "T16b SiblingAgreement (provenance)", cs.Pos(), "addRoot(root, f) with f the loop variable", "a root is not registered under each of its frames")
+		reg := c01AnalyseRegistration(c)
+		ar := reg.ar
+		c.Need(len(reg.puts) >= 1, "AddRoot writes the roots table itself or through one helper")
+		if reg.loop == nil {
+			c.Undecided("registration enumerates frames selfParentFrame+1 .. root.Frame()", "T16b SiblingAgreement (loop bounds)", reg.loopPos, "AddRoot does not register the slots in a counted loop over the root's frames: "+reg.loopWhy)
+		} else {
+			for _, e := range reg.puts {
+				rec := c01PutRecord(e)
+				okRec := rec.ok && rec.id == reg.root && rec.validator == reg.root
+				okIter, wit := c01EveryIteration(ar, reg.loop.Head, reg.loop.Done, reg.putMust)
+				c.Check(okRec && okIter, "each frame of the root is registered", "T16b SiblingAgreement (provenance) + T3 per iteration", e.At.Pos(),
+					"every iteration of the slot loop writes the record (iteration's frame, root.Creator(), root.ID()) to the roots table",
+					"a root is not registered under each of its frames in the roots table ("+ar.DescribePath(wit)+"): replaying the stored roots gives other votes than the live ones")
+				if rec.ok {
+					c01SlotRange(c, ar, reg.loop, reg.spf, reg.root, rec.frame, "registration")
+				}
+			}
+			c01CachedList(c, reg)
 		}
+
 		// the caller passes the same self-parent frame to both
 		chk := c.Fn("abft.Orderer.checkAndSaveEvent")
 		proc := c.Fn("abft.Orderer.Process")
 		okSame := false
 		var spfVar *types.Var
 		for _, cs := range chk.CallsTo("abft.Store.AddRoot") {
-			spfVar = varOf(chk, cs.Call.Args[0])
+			spfVar = canonVar(chk, varOf(chk, cs.Call.Args[0]))
 		}
 		if spfVar != nil {
 			for _, rp := range chk.ReturnPoints() {
 				r := rp.Node().(*ast.ReturnStmt)
-				if len(r.Results) == 2 && varOf(chk, r.Results[1]) == spfVar {
+				if len(r.Results) == 2 && canonVar(chk, varOf(chk, r.Results[1])) == spfVar {
 					okSame = true
 				}
 			}
@@ -138,9 +235,9 @@ func c01Slots(c *core.Ctx) {
 		if okSame {
 			okSame = false
 			for _, cs := range proc.CallsTo("abft.Orderer.handleElection") {
-				v := varOf(proc, cs.Call.Args[0])
-				for _, a := range assignments(proc) {
-					if as, isAs := a.Stmt.(*ast.AssignStmt); isAs && len(as.Lhs) == 2 && varOf(proc, as.Lhs[1]) == v && isCallTo(proc, as.Rhs[0], "abft.Orderer.checkAndSaveEvent") != nil {
+				v := canonVar(proc, varOf(proc, cs.Call.Args[0]))
+				for _, call := range proc.CallsTo("abft.Orderer.checkAndSaveEvent") {
+					if w := c01ResultVar(proc, call.Call, 1); w != nil && canonVar(proc, w) == v {
 						okSame = true
 					}
 				}
@@ -148,4 +245,122 @@ func c01Slots(c *core.Ctx) {
 		}
 		c.Check(okSame, "registration and voting start from the same self-parent frame", "provenance", proc.Pos(), "the self-parent frame used by AddRoot is what checkAndSaveEvent returns and handleElection receives", "registration and voting use different lower bounds")
 	})
+}
+
+// c01PutRecord: the record whose key is written by the roots-table Put of e.
+func c01PutRecord(e c01Effect) c01Record {
+	if len(e.Eff.Call.Args) < 1 {
+		return c01Record{}
+	}
+	key := c01ValueOf(e.G, e.Eff.Call.Args[0])
+	if call, ok := key.(*ast.CallExpr); ok && calleeName(e.G, call) == "abft.rootRecordKey" && len(call.Args) == 1 {
+		return c01RecordOf(e, call.Args[0])
+	}
+	return c01Record{}
+}
+
+// c01CachedList: GetFrameRoots answers from the cached list of a frame when there is one, so every
+// registered slot must also reach that list (or invalidate it) — per slot, keyed by the slot's frame.
+func c01CachedList(c *core.Ctx, reg *c01Registration) {
+	ar := reg.ar
+	const key = "the cached root list of each slot's frame is kept in step with the roots table"
+	const rule = "T16b SiblingAgreement (two sinks) + T3 per iteration"
+	const bad = "a slot is written to the roots table but the cached list of its frame is not updated for it: GetFrameRoots answers from the cache, so an instance whose cache holds that frame misses the root's vote while an instance that reloads the frame from the table (smaller cache, eviction, restart) counts it — same events, different blocks"
+	if len(reg.touches) == 0 {
+		c.Fail(key, rule, reg.loopPos, "AddRoot never looks at the cached root lists: "+bad)
+		return
+	}
+	okIter, wit := c01EveryIteration(ar, reg.loop.Head, reg.loop.Done, reg.touchMust)
+	if !okIter {
+		c.Fail(key, rule, reg.loopPos, "not every iteration of the slot loop reaches the cache update ("+ar.DescribePath(wit)+"): "+bad)
+		return
+	}
+	namer := c01SlotNamer(ar, reg.loop, reg.spf, reg.root)
+	sameFrame := func(a, b ast.Expr) bool {
+		if a == nil || b == nil {
+			return false
+		}
+		la := core.Linearize(ar.Info(), resolveLocal(ar, a), namer)
+		lb := core.Linearize(ar.Info(), resolveLocal(ar, b), namer)
+		return coefIs(la, "f", 1) && la.String() == lb.String()
+	}
+	// the frame under which the slot is written to the table
+	var dbFrame ast.Expr
+	for _, p := range reg.puts {
+		if rec := c01PutRecord(p); rec.ok {
+			dbFrame = rec.frame
+		}
+	}
+	ok, why := true, ""
+	for _, t := range reg.touches {
+		if dbFrame == nil && len(t.Eff.Call.Args) >= 1 {
+			// the table record is judged by its own obligation; here the slot's frame is then the looked-up key
+			dbFrame, _ = t.callerExpr(t.Eff.Call.Args[0])
+		}
+		g := t.G
+		if len(t.Eff.Call.Args) < 1 {
+			ok, why = false, "cache lookup without a key"
+			continue
+		}
+		kf, isParam := t.callerExpr(t.Eff.Call.Args[0])
+		if !isParam || !sameFrame(kf, dbFrame) {
+			ok, why = false, "the cached list looked up is not the one of the slot's frame"
+			continue
+		}
+		if methodNamed(t.Eff.Name, "Remove") {
+			continue // invalidation: the next GetFrameRoots reloads the frame from the table
+		}
+		// a hit must lead to an Add of the extended list under the same key
+		hit := c01ResultVar(g, t.Eff.Call, 1)
+		adds := g.CallsMatching(c01IsCacheAdd)
+		if hit == nil || len(adds) == 0 {
+			ok, why = false, "the lookup's hit flag is not kept or no list is stored back"
+			continue
+		}
+		q := core.PathQuery{F: g, From: t.Eff.Pt, FromAfter: true, Avoid: core.PointSet(core.Points(adds)...), AvoidEdge: g.GuardEdges(c01BoolFact(g, hit, false)), TargetExit: true}
+		if g == ar {
+			q.TargetBlock = func(b *cfg.Block) bool { return b == reg.loop.Head || b == reg.loop.Done }
+		}
+		if p, found := q.Find(); found {
+			ok, why = false, "after a cache hit the list is not stored back on every path ("+g.DescribePath(p)+")"
+			continue
+		}
+		for _, a := range adds {
+			if len(a.Call.Args) < 2 {
+				ok, why = false, "unexpected Add arity"
+				continue
+			}
+			af, isP := t.callerExpr(a.Call.Args[0])
+			if !isP || !sameFrame(af, dbFrame) {
+				ok, why = false, "the extended list is stored under another frame than the slot's"
+			}
+			// the stored list was extended by the slot's record
+			lv := varOf(g, a.Call.Args[1])
+			okApp := false
+			cands := []ast.Expr{a.Call.Args[1]}
+			for _, as := range assignsToVar(g, lv) {
+				if as.RHS != nil {
+					if o, _ := g.MustPassBefore([]core.Point{as.Pt}, a.Pt); o {
+						cands = append(cands, as.RHS)
+					}
+				}
+			}
+			for _, x := range cands {
+				ap := isCallTo(g, x, "builtin.append")
+				if ap == nil {
+					continue
+				}
+				for _, el := range ap.Args[1:] {
+					rec := c01RecordOf(t, el)
+					if rec.ok && rec.id == reg.root && rec.validator == reg.root && sameFrame(rec.frame, dbFrame) {
+						okApp = true
+					}
+				}
+			}
+			if !okApp {
+				ok, why = false, "the list stored back is not the cached list extended by the slot's record"
+			}
+		}
+	}
+	c.Check(ok, key, rule, reg.loopPos, "every iteration looks up the cached list of the slot's frame and, on a hit, stores it back extended by the same (frame, creator, id) record that goes to the table", why+": "+bad)
 }
